@@ -203,6 +203,11 @@ def build_instance(name, p):
     if name == "AG-right":
         op = "+" if rl % 2 else "*"
         return inst("AG", (op, a, (op, b, c)), m_regrouped, target="R")
+    if name == "AG-both":
+        op = "+" if rl % 2 else "*"
+        d = p.get("D") or V("w")
+        lhs = (op, (op, a, b), (op, c, d))
+        return inst("AG", lhs, m_regrouped, target="L" if p["i"] % 2 == 0 else "R")
     if name == "AG-refuse":
         ops = [("+", "*"), ("*", "+"), ("-", "+"), ("/", "*"), ("+", "-")][p["i"] % 5]
         return inst("AG", (ops[0], (ops[1], a, b), c), None, target="L", refuse=True)
@@ -359,7 +364,7 @@ def _sum_folded(res, lhs, k1, k2):
 
 
 SCHEMAS = [
-    "CS-add", "CS-mul", "CS-chain", "CS-flip", "CS-refuse", "AG-left", "AG-right", "AG-refuse", "CA-simple", "CA-neg", "CA-sibling", "CA-alt", "CA-refuse",
+    "CS-add", "CS-mul", "CS-chain", "CS-flip", "CS-refuse", "AG-left", "AG-right", "AG-both", "AG-refuse", "CA-simple", "CA-neg", "CA-sibling", "CA-alt", "CA-refuse",
     "DF-simple", "DF-chained-left", "DF-chained-right", "DF-constants", "DF-constants-refuse", "DF-refuse", "DM-right", "DM-left", "DM-refuse", "MI", "MI-neg",
     "MI-refuse", "RS-sub", "RS-sub-const", "RS-sub-term", "RS-sub-quotient", "RS-sub-negconst", "RS-sub-negvar", "RS-sub-negterm", "RS-add-negconst", "RS-add-negterm", "RS-refuse",
     "VM", "VM-refuse", "BM-add", "BM-add3", "BM-mul", "BM-refuse", "CA-zero",
@@ -473,6 +478,10 @@ def check_instance(ctx, case):
         det["error"] = repr(e)[:200]
         return ctx.fail((name, "malformed-result"), case, det)
     det["result"] = E.text_of(ap.result)
+    if ins["rule"] == "AG" and getattr(ap.result, "id", None) != target.id:
+        # regrouping is asked for at the target: it is the target that moves above its parent (clones keep ids)
+        det["why"] = "a different node was regrouped"
+        return ctx.fail((name, "regrouped-a-different-node"), case, det)
     why = ins["matcher"](res_ast, lhs_ast)
     if why is not None:
         det["why"] = why
